@@ -805,8 +805,9 @@ LEVEL_TEXT = ("Partial. Model: printer (all scalar types incl. time tags, range 
               "hexadecimal float (C10_timetag_token_fraction, C10_timetag_skip_fraction); such a text is a token (tokof) of the "
               "whole-function recognisers (C10_timetag_tokof_clock for a clock time other than 00:00:00, C10_timetag_tokof_fraction, C10_timetag_tokof_immediately), "
               "so texts mixing time tags with the other proved tokens under any white space are counted and scanned back "
-              "(C10_linebreak_transparent, C10_timetag_in_list). Not proved: a date standing alone as a token of lang, VTm in the "
-              "printer-side list theorems (tied). Range conversion: "
+              "(C10_linebreak_transparent, C10_timetag_in_list). Printer to scanner: lists and messages of the proved scalar values and such time tags, compression off "
+              "(C10_roundtrip_timetags_partial, C10_message_timetags_partial). Not proved: a date standing alone (midnight) as a "
+              "token of lang, time tags with compression on or in arrays (tied). Range conversion: "
               "C10_range_expand.")
 LEVEL_NOTE = ("Trusted: Coq kernel, extraction, OCaml driver (incl. its libc oracle for decimal float literals, dead in lossless "
               "mode), harness, generators. FloatFmt.v: fmt_f/fmt_a = glibc printf and sc_f/to_bits = glibc sscanf are tied by "
